@@ -166,6 +166,7 @@ def fixspec(sp):
     """JSON turns tuples into lists; the scripted process wants tuples for edge elements"""
     sp = dict(sp)
     sp['posts'] = [(t, tuple(e) if isinstance(e, list) else e, h) for (t, e, h) in sp.get('posts', [])]
+    sp['repeats'] = [(t0, dt, tuple(e) if isinstance(e, list) else e, h) for (t0, dt, e, h) in sp.get('repeats', [])]
     sp['handlers'] = [(k, [tuple(a) for a in acts]) for (k, acts) in sp['handlers']]
     sp['edgeloci'] = [tuple(x) for x in sp['edgeloci']]; sp['multiloci'] = [(l, list(rs)) for (l, rs) in sp['multiloci']]
     sp['perel'] = [tuple(x) for x in sp['perel']]; sp['fixed'] = [tuple(x) for x in sp['fixed']]
@@ -420,6 +421,10 @@ def gen_script_queue(rnd, dyn=None):
     perel = [[0, rnd.choice([0.125, 0.5]), rnd.randrange(nh)]] if rnd.random() < 0.6 else []
     fixed = [[rnd.randrange(2), rnd.choice([0.25, 0.5, 1.0]), rnd.randrange(nh)]] if rnd.random() < 0.5 else []
     sp = dict(comps=[0.5, 0.5], nodeloci=[0, 1], edgeloci=[], multiloci=[], perel=perel, fixed=fixed, handlers=handlers, posts=posts)
+    if rnd.random() < 0.3:
+        # one or two events posted through postRepeatingEvent (on different handlers), next to the one-off ones
+        hs = rnd.sample(range(nh), min(nh, rnd.choice([1, 2, 2])))
+        sp['repeats'] = [[rnd.choice([0.0, 0.5, 1.0]), rnd.choice([0.5, 1.0, 0.3, 0.7, 1.5]), rnd.choice(nodes), h] for h in hs]
     return dict(procs=[dict(cls='Script', name=None, spec=sp)], seq='bare', dyn=dyn or rnd.choice(['sto', 'syn']), nodes=nodes, edges=edges,
                 maxT=rnd.choice([3.0, 5.0]), seed=rnd.random(), specials=[0.125, 0.25, 0.5], pspecial=0.1, oracles=['clock', 'member'])
 
